@@ -277,3 +277,45 @@ def add_nearfull(rng, case, n=None):
         rid += 1
         qid += 1
     return case
+
+
+def long_molecule_case(rng, nq=None, mode=None, indel=(1500, 20000)):
+    """Realistic long molecules: one 1-3 Mb reference (label spacing 400 bp + exponential, mean 5-9 kb), queries of
+    100-400 kb with 0-3 indels of 1.5-20 kb, 10 % missing and 5 % extra labels, sd 150 bp, 2 % stretch, both strands.
+    Long molecules with several indels are what drives multi-segment first-pass rows into the second-pass join."""
+    length = rng.choice([1000000, 2000000, 3000000])
+    mean = rng.choice([5000, 7000, 9000])
+    pos = []
+    p = rng.randint(100, 3000)
+    while p < length - 1000:
+        pos.append(float(p))
+        p += 400 + int(rng.expovariate(1 / mean))
+    refs = [[1, float(length), pos]]
+    queries, qclass = [], {}
+    nq = nq or rng.randint(8, 16)
+    qid = 1
+    while len(queries) < nq:
+        qlen = rng.randint(100000, 400000)
+        start = rng.randint(0, length - qlen - 1)
+        sub = [x - start for x in pos if start <= x < start + qlen]
+        for _ in range(rng.choice([0, 1, 2, 3])):
+            at = rng.randint(qlen // 5, 4 * qlen // 5)
+            size = rng.choice([-1, 1]) * rng.randint(*indel)
+            if size > 0:
+                sub = [x if x < at else x + size for x in sub]
+            else:
+                sub = [x if x < at else x + size for x in sub if not (at <= x < at - size)]
+        s = 1 + rng.gauss(0, 0.02)
+        sub = [x * s + rng.gauss(0, 150) for x in sub if rng.random() > 0.1]
+        if sub:
+            sub += [rng.uniform(0, max(sub)) for _ in range(int(len(sub) * 0.05))]
+        sub = sorted(round(max(0.0, x), 1) for x in sub)
+        if len(sub) < 8:
+            continue
+        L = round(sub[-1] + 50, 1)
+        if rng.random() < 0.5:
+            sub = sorted(round(L - x, 1) for x in sub)
+        queries.append([qid, L, sub])
+        qclass[str(qid)] = 'long-multi-indel'
+        qid += 1
+    return {'refs': refs, 'queries': queries, 'qclass': qclass, 'params': dict(DEFAULTS), 'mode': mode or rng.choice(MODES)}
